@@ -69,7 +69,7 @@ INT = Leaf('INTEGER')
 
 def bounds(tier):
     return {'tier': tier,
-            'layers': ('L0,L0c,L1(W2,K2),L2,families; 2 environments' if tier == 'quick'
+            'layers': ('L0,L0c,L1(W2,K2),L2,families; 2 environments (C06 terms: 3, incl. EXTENSIBILITY IMPLIED)' if tier == 'quick'
                        else 'L0,L0c,L1(W3,K2),L2,families; 5 environments') + '; C06 extra terms',
             'value_deviation_k': 2, 'codecs': [CODEC], 'numeric_enums': [False, True],
             'extra_additions_counts': list(ADD_COUNTS_THOROUGH if tier == 'thorough' else ADD_COUNTS_QUICK),
@@ -190,7 +190,8 @@ def extra_terms(tier):
 
 def extra_units(tier):
     terms = extra_terms(tier)
-    envs = space.ENVS_ALL if tier == 'thorough' else space.ENVS_QUICK
+    # the C06 terms are few: EXTENSIBILITY IMPLIED is exercised on them in the quick tier as well
+    envs = space.ENVS_ALL if tier == 'thorough' else space.ENVS_QUICK + (('EXPLICIT', True),)
     out = []
     for tags, ei in envs:
         for bi, chunk in enumerate(space.batches(terms, 40)):
@@ -415,7 +416,7 @@ def work(unit):
             continue
         res.count('values', len(values))
         enum = has_enum(term, unit.env)
-        if len(res.samples) < 2:
+        if i in (len(unit.tops) // 2, len(unit.tops) - 1):
             mid = values[len(values) // 2]
             try:
                 mb = ref_oer.encode(term, mid, unit.env, unit.tags, unit.ext_implied).hex()[:80]
